@@ -114,6 +114,22 @@ func c06Worker(env *fw.Env) {
 			}
 		}
 	}
+	// system bytes across data transactions and the automatic linktest (c06_lt.go)
+	for rep := 0; rep < env.Pick(1, 4); rep++ {
+		for _, idle := range []int{0, 3, 7} {
+			for _, active := range []bool{true, false} {
+				i := k
+				k++
+				if !env.Mine(i) || !env.Want(i) {
+					continue
+				}
+				if env.Stop() {
+					return
+				}
+				c06LinktestSys(env, i, active, idle+rep)
+			}
+		}
+	}
 }
 
 //nolint:gocyclo,cyclop // one history: workload, peer program and the offline scan
